@@ -47,26 +47,26 @@ namespace glm
 	GLM_FUNC_QUALIFIER float prev_float(float x)
 	{
 #		if GLM_HAS_CXX11_STL
-		return std::nextafter(x, std::numeric_limits<float>::min());
+		return std::nextafter(x, -std::numeric_limits<float>::max());
 #		elif((GLM_COMPILER & GLM_COMPILER_VC) || ((GLM_COMPILER & GLM_COMPILER_INTEL) && (GLM_PLATFORM & GLM_PLATFORM_WINDOWS)))
-		return detail::nextafterf(x, FLT_MIN);
+		return detail::nextafterf(x, -FLT_MAX);
 #		elif(GLM_PLATFORM & GLM_PLATFORM_ANDROID)
-		return __builtin_nextafterf(x, FLT_MIN);
+		return __builtin_nextafterf(x, -FLT_MAX);
 #		else
-		return nextafterf(x, FLT_MIN);
+		return nextafterf(x, -FLT_MAX);
 #		endif
 	}
 
 	GLM_FUNC_QUALIFIER double prev_float(double x)
 	{
 #		if GLM_HAS_CXX11_STL
-		return std::nextafter(x, std::numeric_limits<double>::min());
+		return std::nextafter(x, -std::numeric_limits<double>::max());
 #		elif((GLM_COMPILER & GLM_COMPILER_VC) || ((GLM_COMPILER & GLM_COMPILER_INTEL) && (GLM_PLATFORM & GLM_PLATFORM_WINDOWS)))
-		return _nextafter(x, DBL_MIN);
+		return _nextafter(x, -DBL_MAX);
 #		elif(GLM_PLATFORM & GLM_PLATFORM_ANDROID)
-		return __builtin_nextafter(x, DBL_MIN);
+		return __builtin_nextafter(x, -DBL_MAX);
 #		else
-		return nextafter(x, DBL_MIN);
+		return nextafter(x, -DBL_MAX);
 #		endif
 	}
 
@@ -84,18 +84,12 @@ namespace glm
 
 	GLM_FUNC_QUALIFIER int float_distance(float x, float y)
 	{
-		detail::float_t<float> const a(x);
-		detail::float_t<float> const b(y);
-
-		return abs(a.i - b.i);
+		return floatDistance(x, y);
 	}
 
 	GLM_FUNC_QUALIFIER int64 float_distance(double x, double y)
 	{
-		detail::float_t<double> const a(x);
-		detail::float_t<double> const b(y);
-
-		return abs(a.i - b.i);
+		return floatDistance(x, y);
 	}
 
 	template<length_t L, typename T, qualifier Q>
